@@ -641,6 +641,9 @@ func isRangeBoundary(b string) bool {
 type argRb struct {
 	Min, Max   bool
 	Start, End string
+	// A part that is the single boundary max (min) stands for that one
+	// value: StartMax (EndMin) says that the other end is it as well.
+	StartMax, EndMin bool
 }
 
 type RangeArgBdrySlice []argRb
@@ -672,9 +675,9 @@ func (a *RangeArg) Parse() error {
 		case 1:
 			switch rbs[0] {
 			case "max":
-				r.Max = true
+				r.Max, r.StartMax = true, true
 			case "min":
-				r.Min = true
+				r.Min, r.EndMin = true, true
 			default:
 				r.Start = rbs[0]
 				r.End = rbs[0]
@@ -703,6 +706,8 @@ func (a *RangeArg) Parse() error {
 type Lb struct {
 	Min, Max   bool
 	Start, End uint64
+	// As for argRb
+	StartMax, EndMin bool
 }
 
 type LengthArg struct {
@@ -734,9 +739,9 @@ func (a *LengthArg) Parse() error {
 		case 1:
 			switch bs[0] {
 			case "max":
-				l.Max = true
+				l.Max, l.StartMax = true, true
 			case "min":
-				l.Min = true
+				l.Min, l.EndMin = true, true
 			default:
 				i, e := strconv.ParseUint(bs[0], 10, 64)
 				if e != nil {
